@@ -19,6 +19,46 @@ CHECKS = {
         design="Part II C19"),
 }
 
+CHECKS.update({
+    "C01": dict(
+        text=("Coq theorems for all sizes / block sizes >= 1 / layouts / answer sequences: the block partition of parblock is "
+              "exact and overflow-free; the parfile cursor loop and sparse walk transfer exactly the data, aligned; parblock "
+              "writes every byte of every queued range in EVERY completion order; after CopyHandle::new nothing of the old "
+              "destination survives. Tied to the code by running the real xcp under a ptrace supervisor, feeding the "
+              "kernel's actual answers to the Gallina model and comparing the transfer requests, exit class and final bytes."),
+        note=("per-file theorems; kernel contract: copy_file_range/pread/pwrite move the bytes they report, never more than "
+              "asked; SEEK/FIEMAP answers describe a layout whose complement reads zero (checked per case). The lift from "
+              "one file to a whole run is C02/C06's."),
+        technique="Coq proof over hand-written Gallina model + trace-level differential correspondence under ptrace",
+        design="Part II C01"),
+    "C05": dict(
+        text=("Coq theorems quantified over every answer sequence (short counts down to 1 byte, zero counts, errno, "
+              "fall-backs): user-space pread/pwrite and read/write_all loops and both drivers' copy loops report success "
+              "only when the range is completely and alignedly transferred; errno classification tables proved. The "
+              "supervisor makes the real kernel produce those answers (clamped copy_file_range/read/write, ENOSYS/EXDEV/"
+              "EPERM, FICLONE/FIEMAP unsupported, EINTR) and the model must predict the same requests and outcome; also "
+              "run on the binary built without the Linux backend."),
+        note="as C01; the parblock short-count defect found here is repaired by a fix: commit (known_findings.jsonl).",
+        technique="Coq proof over answer-sequence oracle model + ptrace fault/short-count injection correspondence",
+        design="Part II C05"),
+    "C11": dict(
+        text=("Coq theorems: for a source classified sparse, parfile writes exactly the SEEK_DATA segments and parblock only "
+              "extent bytes plus merge gaps, in any completion order and for any hole size; an entirely empty file causes no "
+              "write; the destination prologue releases the old allocation. Correspondence on real sparse ext4 files "
+              "(written ranges = model's), direct oracle on st_blocks and the destination's SEEK map."),
+        note="partial by nature: which ranges are written is proved; ext4's block allocation for them is observed.",
+        technique="Coq proof (written ranges) + correspondence and st_blocks oracle on real sparse files",
+        design="Part II C11"),
+    "C15": dict(
+        text=("Coq theorems over the model of try_reflink x reflink errno table x both drivers: never issues no clone; always "
+              "succeeds iff the clone succeeded and then copies no data; always+unsupported fails; auto clones first, falls "
+              "back to exactly the plain copy on unsupported answers, and fails on hard errors. The supervisor answers the "
+              "real FICLONE ioctl with each errno or emulated success and the trace must match the model."),
+        note="a real successful clone cannot be exercised on ext4; success is emulated by skipping the ioctl and returning 0.",
+        technique="Coq proof of the mode decision table + ptrace-injected clone answers correspondence",
+        design="Part II C15"),
+})
+
 NOT_YET = {}
 
 def main():
